@@ -20,11 +20,9 @@ import (
 
 	"github.com/anishathalye/porcupine"
 
-	"github.com/Tnze/go-mc/chat"
 	"github.com/Tnze/go-mc/nbt"
 	pk "github.com/Tnze/go-mc/net/packet"
 	"github.com/Tnze/go-mc/net/queue"
-	"github.com/Tnze/go-mc/server"
 
 	"verif/vm"
 )
@@ -568,11 +566,25 @@ type pooledRange struct {
 
 // spyWriter remembers the pooled ranges Pack hands to Write (read-only overlap check in concurrent mode).
 type spyWriter struct {
-	buf   bytes.Buffer
-	share *pooledRange
+	buf       bytes.Buffer
+	share     *pooledRange
+	failAfter int  // >= 0: the peer takes this many bytes in all, then fails (-1: never fails)
+	failed    bool // a Write has failed
 }
 
+var errPeerGone = fmt.Errorf("verif: the peer is gone")
+
 func (s *spyWriter) Write(p []byte) (int, error) {
+	if s.failAfter >= 0 && s.buf.Len()+len(p) > s.failAfter {
+		k := s.failAfter - s.buf.Len()
+		if k < 0 {
+			k = 0
+		}
+		runtime.Gosched() // the frame is still in the packer's hands while others run
+		s.buf.Write(p[:k])
+		s.failed = true
+		return k, errPeerGone
+	}
 	// a peer that takes the bytes late: other goroutines run (and pack) while this Write holds the frame
 	if len(p)%4 == 1 {
 		for k := 0; k < 3; k++ {
@@ -616,22 +628,53 @@ type nbtDoc struct {
 	S    []string `nbt:"s"`
 }
 
+// codecsCalls numbers the calls of codecs in this process; codecsTypesSeen holds every reflect-built type an
+// earlier call has used (the monitor's own book-keeping that the types of a call are new ones).
+var (
+	codecsCalls     atomic.Int64
+	codecsTypesMu   sync.Mutex
+	codecsTypesSeen = map[reflect.Type]bool{}
+)
+
 func codecs(c *vm.Ctx, r *vm.Rand, G, rounds int) {
 	share := &pooledRange{}
-	// many distinct struct types, first used concurrently by several goroutines (the per-type cache)
+	// many distinct struct types, first used concurrently by several goroutines (the per-type cache). reflect.StructOf
+	// hands back the identical type for an identical field list, and the library's cache is keyed by type: the tags
+	// carry the number of this call, so that EVERY call brings types the cache has never seen (a first concurrent
+	// use per call, not per process)
+	call := codecsCalls.Add(1)
 	ntypes := 40
 	types := make([]reflect.Type, ntypes)
 	for i := range types {
 		var fs []reflect.StructField
 		for j := 0; j <= i%6; j++ {
-			fs = append(fs, reflect.StructField{Name: fmt.Sprintf("F%d_%d", i, j), Type: reflect.TypeOf(int32(0)), Tag: reflect.StructTag(fmt.Sprintf(`nbt:"k%d_%d"`, i, j))})
+			fs = append(fs, reflect.StructField{Name: fmt.Sprintf("F%d_%d", i, j), Type: reflect.TypeOf(int32(0)), Tag: reflect.StructTag(fmt.Sprintf(`nbt:"k%d_%d_%d"`, call, i, j))})
 		}
 		fs = append(fs, reflect.StructField{Name: "Tail", Type: reflect.TypeOf(""), Tag: `nbt:"tail"`})
 		types[i] = reflect.StructOf(fs)
 	}
+	codecsTypesMu.Lock()
+	freshTypes := true
+	for _, t := range types {
+		if codecsTypesSeen[t] {
+			freshTypes = false
+		}
+		codecsTypesSeen[t] = true
+	}
+	codecsTypesMu.Unlock()
 	var wg, start sync.WaitGroup
 	start.Add(1)
 	var bad int32
+	var nReused, nFailedWrites, nBrokenReads int64
+	// what a replay needs: the run (seed, shard and mode fix the sequence of calls), the call, its size, and where it was seen
+	cwit := func(g, seq int, more map[string]any) map[string]any {
+		w := map[string]any{"seed": c.Seed, "shard": c.Shard, "codecs_call": call, "goroutines": G, "rounds": rounds, "goroutine": g, "seq": seq,
+			"goroutine_rand_seed": uint64(g)*7919 + c.Seed}
+		for k, v := range more {
+			w[k] = v
+		}
+		return w
+	}
 	for g := 0; g < G; g++ {
 		wg.Add(1)
 		go func(g int) {
@@ -646,6 +689,17 @@ func codecs(c *vm.Ctx, r *vm.Rand, G, rounds int) {
 			var keep []kept
 			var keptDocs []nbtDoc
 			var keptSeq []int
+			// one destination packet used again and again (UnPack then writes into the capacity the previous call
+			// left there) next to fresh ones; what the last call put there must still be there at the next one
+			var reuse pk.Packet
+			var reuseWant []byte
+			var reuseID int32
+			reused, failedWrites, brokenReads := 0, 0, 0
+			defer func() {
+				atomic.AddInt64(&nReused, int64(reused))
+				atomic.AddInt64(&nFailedWrites, int64(failedWrites))
+				atomic.AddInt64(&nBrokenReads, int64(brokenReads))
+			}()
 			for seq := 0; seq < rounds; seq++ {
 				if atomic.LoadInt32(&bad) != 0 {
 					return
@@ -656,28 +710,61 @@ func codecs(c *vm.Ctx, r *vm.Rand, G, rounds int) {
 					n = []int{5000, 70000}[lr.Intn(2)] // beyond what a fresh pooled buffer holds: the buffer grows, then goes back
 				}
 				want := payloadFor(g, seq, n)
-				w := &spyWriter{share: share}
+				w := &spyWriter{share: share, failAfter: -1}
 				p := pk.Packet{ID: int32(g*1000 + seq%1000), Data: append([]byte{}, want...)}
+				if lr.Intn(50) == 0 {
+					// a peer that fails part-way: Pack comes back on its error path, its pooled scratch buffer (and zlib
+					// writer) goes back to the pool and is the next goroutine's. Whether the error is reported is
+					// property C09's business; here the neighbours' packets (and this goroutine's next ones) must stay exact.
+					fw := &spyWriter{share: share, failAfter: lr.Intn(n + 4)}
+					_ = p.Pack(fw, th)
+					if fw.failed {
+						failedWrites++
+					}
+				}
 				if err := p.Pack(w, th); err != nil {
-					c.Violation("codecs/pack-error", err.Error(), nil)
+					c.Violation("codecs/pack-error", err.Error(), cwit(g, seq, map[string]any{"threshold": th, "size": n}))
 					atomic.StoreInt32(&bad, 1)
 					return
+				}
+				if lr.Intn(50) == 0 && w.buf.Len() > 1 {
+					// a stream that ends early: UnPack leaves through one of its error paths while it holds a pooled buffer
+					// (and, past the threshold, a zlib reader). The outcome is C07/C09's business.
+					var broken pk.Packet
+					_ = broken.UnPack(bytes.NewReader(w.buf.Bytes()[:1+lr.Intn(w.buf.Len()-1)]), th)
+					brokenReads++
 				}
 				var q pk.Packet
-				if err := q.UnPack(bytes.NewReader(w.buf.Bytes()), th); err != nil {
-					c.Violation("codecs/unpack-error", fmt.Sprintf("goroutine %d seq %d threshold %d: %v", g, seq, th, err), nil)
+				dst := &q
+				if lr.Bool() {
+					if reuseWant != nil && (reuse.ID != reuseID || !bytes.Equal(reuse.Data, reuseWant)) {
+						c.Violation("codecs/reused-packet-changed-between-calls", fmt.Sprintf("goroutine %d: the packet this goroutine keeps as its UnPack destination no longer holds what the previous UnPack put there", g), cwit(g, seq, map[string]any{"threshold": th, "size": n}))
+						atomic.StoreInt32(&bad, 1)
+						return
+					}
+					dst = &reuse
+					reused++
+				}
+				reusedDst := dst == &reuse
+				if err := dst.UnPack(bytes.NewReader(w.buf.Bytes()), th); err != nil {
+					c.Violation("codecs/unpack-error", fmt.Sprintf("goroutine %d seq %d threshold %d: %v", g, seq, th, err), cwit(g, seq, map[string]any{"threshold": th, "size": n, "destination_reused": reusedDst}))
 					atomic.StoreInt32(&bad, 1)
 					return
 				}
-				if q.ID != p.ID || !bytes.Equal(q.Data, want) {
-					c.Violation("codecs/cross-talk/packet", fmt.Sprintf("goroutine %d seq %d: unpacked packet differs from what this goroutine packed (id %d vs %d, %d vs %d bytes)", g, seq, q.ID, p.ID, len(q.Data), len(want)), map[string]any{"threshold": th, "size": n})
+				if dst.ID != p.ID || !bytes.Equal(dst.Data, want) {
+					c.Violation("codecs/cross-talk/packet", fmt.Sprintf("goroutine %d seq %d: unpacked packet differs from what this goroutine packed (id %d vs %d, %d vs %d bytes)", g, seq, dst.ID, p.ID, len(dst.Data), len(want)), cwit(g, seq, map[string]any{"threshold": th, "size": n, "destination_reused": reusedDst}))
 					atomic.StoreInt32(&bad, 1)
 					return
 				}
-				if share.overlaps(q.Data) {
-					c.Violation("codecs/returned-data-aliases-pooled-buffer", "Packet.Data returned by UnPack lies inside a pooled scratch buffer", map[string]any{"threshold": th, "size": n})
+				if share.overlaps(dst.Data) {
+					c.Violation("codecs/returned-data-aliases-pooled-buffer", "Packet.Data returned by UnPack lies inside a pooled scratch buffer", cwit(g, seq, map[string]any{"threshold": th, "size": n, "destination_reused": reusedDst}))
 					atomic.StoreInt32(&bad, 1)
 					return
+				}
+				if reusedDst {
+					reuseWant, reuseID = want, p.ID
+					// the delayed check keeps a copy: the destination itself is overwritten by design
+					q = pk.Packet{ID: reuse.ID, Data: append([]byte{}, reuse.Data...)}
 				}
 				keep = append(keep, kept{q, want, p.ID})
 				// NBT encode/decode of self-identifying data
@@ -688,14 +775,20 @@ func codecs(c *vm.Ctx, r *vm.Rand, G, rounds int) {
 					err = nbt.Unmarshal(b, &back)
 				}
 				if err != nil || !reflect.DeepEqual(doc, back) {
-					c.Violation("codecs/cross-talk/nbt", fmt.Sprintf("goroutine %d seq %d: NBT round trip err=%v got %+v", g, seq, err, back), nil)
+					c.Violation("codecs/cross-talk/nbt", fmt.Sprintf("goroutine %d seq %d: NBT round trip err=%v got %+v", g, seq, err, back), cwit(g, seq, nil))
 					atomic.StoreInt32(&bad, 1)
 					return
 				}
 				keptDocs = append(keptDocs, back)
 				keptSeq = append(keptSeq, seq)
 				// a dynamically built type, shared with other goroutines, possibly first used right now
-				t := types[(g+seq)%ntypes]
+				// even steps: all goroutines reach the same type at about the same time (its first use is contended);
+				// odd steps: staggered, every goroutine on another type
+				ti := seq / 2 % ntypes
+				if seq%2 == 1 {
+					ti = (g + seq) % ntypes
+				}
+				t := types[ti]
 				v := reflect.New(t).Elem()
 				for j := 0; j < t.NumField()-1; j++ {
 					v.Field(j).SetInt(int64(g*100000 + seq*10 + j))
@@ -707,7 +800,7 @@ func codecs(c *vm.Ctx, r *vm.Rand, G, rounds int) {
 					err = nbt.Unmarshal(tb, out.Interface())
 				}
 				if err != nil || !reflect.DeepEqual(out.Elem().Interface(), v.Interface()) {
-					c.Violation("codecs/cross-talk/typed-cache", fmt.Sprintf("goroutine %d seq %d type %d: err=%v", g, seq, (g+seq)%ntypes, err), nil)
+					c.Violation("codecs/cross-talk/typed-cache", fmt.Sprintf("goroutine %d seq %d type %d of call %d: err=%v", g, seq, ti, call, err), cwit(g, seq, map[string]any{"type": ti}))
 					atomic.StoreInt32(&bad, 1)
 					return
 				}
@@ -729,7 +822,7 @@ func codecs(c *vm.Ctx, r *vm.Rand, G, rounds int) {
 					err = nbt.Unmarshal(mb, out2.Interface())
 				}
 				if err != nil || !reflect.DeepEqual(out2.Elem().Interface(), v.Interface()) {
-					c.Violation("codecs/cross-talk/typed-cache-case-folded-names", fmt.Sprintf("goroutine %d seq %d type %d: err=%v", g, seq, (g+seq)%ntypes, err), nil)
+					c.Violation("codecs/cross-talk/typed-cache-case-folded-names", fmt.Sprintf("goroutine %d seq %d type %d of call %d: err=%v", g, seq, ti, call, err), cwit(g, seq, map[string]any{"type": ti}))
 					atomic.StoreInt32(&bad, 1)
 					return
 				}
@@ -738,14 +831,14 @@ func codecs(c *vm.Ctx, r *vm.Rand, G, rounds int) {
 					k := keep[0]
 					keep = keep[1:]
 					if k.p.ID != k.id || !bytes.Equal(k.p.Data, k.want) {
-						c.Violation("codecs/returned-packet-changed-later", fmt.Sprintf("goroutine %d: a packet returned %d operations ago has changed since", g, 24), nil)
+						c.Violation("codecs/returned-packet-changed-later", fmt.Sprintf("goroutine %d: a packet returned %d operations ago has changed since", g, 24), cwit(g, seq, nil))
 						atomic.StoreInt32(&bad, 1)
 						return
 					}
 					d, s := keptDocs[0], keptSeq[0]
 					keptDocs, keptSeq = keptDocs[1:], keptSeq[1:]
 					if d.G != int32(g) || d.Seq != int32(s) || !bytes.Equal(d.Blob, payloadFor(g, s, len(d.Blob))) {
-						c.Violation("codecs/decoded-value-changed-later", fmt.Sprintf("goroutine %d: a decoded NBT value has changed since it was returned", g), nil)
+						c.Violation("codecs/decoded-value-changed-later", fmt.Sprintf("goroutine %d: a decoded NBT value has changed since it was returned", g), cwit(g, seq, nil))
 						atomic.StoreInt32(&bad, 1)
 						return
 					}
@@ -759,93 +852,22 @@ func codecs(c *vm.Ctx, r *vm.Rand, G, rounds int) {
 	if atomic.LoadInt32(&bad) == 0 {
 		c.Cover("codecs.isolated")
 		c.Cover("codecs.case-folded-names")
+		if nReused > 0 {
+			c.Cover("codecs.unpack-into-reused-packet")
+		}
+		if nFailedWrites > 0 {
+			c.Cover("codecs.failing-writer-next-to-others")
+		}
+		if nBrokenReads > 0 {
+			c.Cover("codecs.truncated-stream-next-to-others")
+		}
+		if call > 1 && freshTypes {
+			c.Cover("codecs.type-cache-first-use-in-a-later-call")
+		}
 	}
 }
 
-// ---------------------------------------------------------------------------
-// 4. player list
-
-type plClient struct {
-	id         int
-	disconnect int32
-}
-
-func (p *plClient) SendDisconnect(chat.Message) { atomic.AddInt32(&p.disconnect, 1) }
-
-func playerList(c *vm.Ctx, r *vm.Rand, capacity, J, rounds int) {
-	pl := server.NewPlayerList(capacity)
-	var wg sync.WaitGroup
-	var over int32
-	var stop int32
-	var netJoined int64
-	for s := 0; s < 3; s++ {
-		wg.Add(1)
-		go func() {
-			defer wg.Done()
-			for atomic.LoadInt32(&stop) == 0 {
-				if n := pl.Len(); n > capacity {
-					atomic.StoreInt32(&over, int32(n))
-				}
-				if n := pl.OnlinePlayer(); n > capacity {
-					atomic.StoreInt32(&over, int32(n))
-				}
-				if n := len(pl.PlayerSamples()); n > capacity || n > 10 {
-					atomic.StoreInt32(&over, int32(n))
-				}
-				cnt := 0
-				pl.Range(func(server.PlayerListClient, server.PlayerSample) { cnt++ })
-				if cnt > capacity {
-					atomic.StoreInt32(&over, int32(cnt))
-				}
-				runtime.Gosched()
-			}
-		}()
-	}
-	var jw sync.WaitGroup
-	var refusedTwice int32
-	for j := 0; j < J; j++ {
-		jw.Add(1)
-		go func(j int) {
-			defer jw.Done()
-			for k := 0; k < rounds; k++ {
-				cl := &plClient{id: j*10000 + k}
-				pl.ClientJoin(cl, server.PlayerSample{Name: fmt.Sprint(cl.id)})
-				d := atomic.LoadInt32(&cl.disconnect)
-				if d > 1 {
-					atomic.StoreInt32(&refusedTwice, d)
-				}
-				if d == 0 {
-					atomic.AddInt64(&netJoined, 1)
-					runtime.Gosched()
-					if k%3 != 0 {
-						pl.ClientLeft(cl)
-						atomic.AddInt64(&netJoined, -1)
-					}
-				} else {
-					pl.ClientLeft(cl) // leaving after a refusal must be harmless
-				}
-			}
-		}(j)
-	}
-	jw.Wait()
-	atomic.StoreInt32(&stop, 1)
-	wg.Wait()
-	wit := map[string]any{"capacity": capacity, "joiners": J, "rounds": rounds}
-	c.EvalN(int64(J*rounds), vm.HashStr("pl", fmt.Sprint(capacity, J, rounds, r.Uint64())), true)
-	if o := atomic.LoadInt32(&over); o != 0 {
-		c.Violation("playerlist/over-capacity", fmt.Sprintf("a sampler observed %d players on a list of capacity %d", o, capacity), wit)
-		return
-	}
-	if atomic.LoadInt32(&refusedTwice) != 0 {
-		c.Violation("playerlist/refusal-told-more-than-once", "a refused client was told so more than once", wit)
-		return
-	}
-	if got := int64(pl.Len()); got != atomic.LoadInt64(&netJoined) {
-		c.Violation("playerlist/final-count", fmt.Sprintf("final Len()=%d, accepted joins minus leaves = %d", got, netJoined), wit)
-		return
-	}
-	c.Cover("playerlist.ok")
-}
+// 4. player list: playerlist.go
 
 // ---------------------------------------------------------------------------
 
@@ -866,6 +888,7 @@ func run(c *vm.Ctx) {
 			burstOneEach(c, qk, r.Range(2, 12))
 			c.Inflight(fmt.Sprintf("full-queue %s #%d", qk.name, i))
 			fullQueue(c, qk)
+			typedQueues(c, r, i)
 		}
 		return
 	}
@@ -885,9 +908,11 @@ func run(c *vm.Ctx) {
 		closeWithParked(c, qk, r.Range(1, 16))
 		c.Inflight(fmt.Sprintf("burst-one-each %s #%d", qk.name, i))
 		burstOneEach(c, qk, r.Range(2, 12))
+		typedQueues(c, r, i)
 	}
 	for i := 0; i < c.Scale(6, 120); i++ {
 		botEcho(c, r)
+		botEchoParallel(c, r)
 	}
 	for i := 0; i < c.Scale(8, 160); i++ {
 		c.Inflight("codecs")
@@ -899,6 +924,13 @@ func run(c *vm.Ctx) {
 	}
 	for i := 0; i < c.Scale(40, 800); i++ {
 		c.Inflight("playerlist")
-		playerList(c, r, []int{1, 2, 10}[i%3], r.Range(2, 12), r.Range(20, 200))
+		switch capacity := []int{1, 2, 10, 25}[i%4]; capacity {
+		case 25:
+			// more than ten online while clients come and go (a status sample holds at most 10): 12 joiners keeping
+			// up to 3 clients each in a list of 25
+			playerList(c, r, capacity, 12, r.Range(20, 200), 3)
+		default:
+			playerList(c, r, capacity, r.Range(2, 12), r.Range(20, 200), 0)
+		}
 	}
 }
